@@ -37,6 +37,10 @@ pub struct Case {
 	pub p_yield: u16,
 	pub max_sleep_us: u16,
 	pub plan_seed: u64,
+	/// the target chain's database starts a few pages short of the point where the store enlarges its map,
+	/// so the enlargement (which waits for open transactions and holds back new ones) falls into the run
+	#[serde(default)]
+	pub near_full: bool,
 }
 
 pub fn case_strategy() -> impl Strategy<Value = Case> {
@@ -53,8 +57,9 @@ pub fn case_strategy() -> impl Strategy<Value = Case> {
 		any::<bool>(),
 		(0u16..300, 0u16..500, 50u16..2000),
 		any::<u64>(),
+		prop::bool::weighted(0.35),
 	)
-		.prop_map(|(on_base, blocks, peers, header_threads, readers, compact, (p_sleep, p_yield, max_sleep_us), plan_seed)| Case {
+		.prop_map(|(on_base, blocks, peers, header_threads, readers, compact, (p_sleep, p_yield, max_sleep_us), plan_seed, near_full)| Case {
 			on_base,
 			blocks,
 			peers,
@@ -65,6 +70,7 @@ pub fn case_strategy() -> impl Strategy<Value = Case> {
 			p_yield,
 			max_sleep_us,
 			plan_seed,
+			near_full,
 		})
 }
 
@@ -132,6 +138,12 @@ pub fn run_case(ctx: &Ctx, case: &Case, counting: bool) -> PResult {
 		ChainBox::open(&dir).map_err(|e| Fail::new("init-base-copy", e))?
 	} else {
 		ChainBox::open(&ctx.scratch_dir("c17t")).map_err(|e| Fail::new("init-fresh", e))?
+	};
+	let map_before = if case.near_full {
+		let slack = 4096 * (2 + (case.plan_seed % 5));
+		Some(fill_db_near_resize(&target.dir, slack).map_err(|e| Fail::new("harness:fill", e))?.1)
+	} else {
+		None
 	};
 	let chain = target.arc();
 	let w = Arc::new(w);
@@ -542,6 +554,14 @@ pub fn run_case(ctx: &Ctx, case: &Case, counting: bool) -> PResult {
 		}
 		if case.compact && case.on_base {
 			ev.class("runs_with_concurrent_compaction");
+		}
+		if let Some(m0) = map_before {
+			ev.class("runs_on_a_database_close_to_its_resize_threshold");
+			if let Ok((_, m1)) = db_usage(&target.dir) {
+				if m1 > m0 {
+					ev.class("runs_in_which_the_database_map_was_enlarged");
+				}
+			}
 		}
 		if progress.overlap_seen.load(Ordering::SeqCst) && heads >= 2 {
 			ev.nontrivial(&(case.peers, case.header_threads, case.readers, case.on_base, case.compact, n_nodes - first_new, heads.min(6)));
